@@ -154,6 +154,27 @@ M("C11", "increment_sets", "api/io/indent.py",
   "                output._indent = output._indent + indent", "                output._indent = indent")
 M("C11", "section_ignores_indent", "api/io/output.py", "        section.indent(self._indent)\n", "", expect="silent")
 
+# ---- C19 ------------------------------------------------------------------------------------
+M("C19", "two_writes_per_frame", "ui/components/progress_indicator.py",
+  '            self._io.write("\\x0D\\x1B[2K" + message)', '            self._io.write("\\x0D\\x1B[2K")\n            self._io.write(message)')
+M("C19", "no_join_on_exception", "ui/components/progress_indicator.py",
+  "            self._auto_running.set()\n            self._auto_thread.join()\n\n            raise", "            self._auto_running.set()\n\n            raise")
+M("C19", "no_stop_on_exception", "ui/components/progress_indicator.py",
+  "            self._auto_running.set()\n            self._auto_thread.join()\n\n            raise", "            self._auto_thread.join()\n\n            raise")
+M("C19", "only_exception_caught", "ui/components/progress_indicator.py",
+  "        except (Exception, KeyboardInterrupt):", "        except Exception:")
+M("C19", "end_frame_before_join", "ui/components/progress_indicator.py",
+  "        if self._auto_thread is not None:\n            self._auto_running.set()\n            self._auto_thread.join()\n\n        self._message = message\n\n        if reset_indicator:\n            self._current = 0\n\n        self._display()\n",
+  "        self._message = message\n\n        if reset_indicator:\n            self._current = 0\n\n        self._display()\n\n        if self._auto_thread is not None:\n            self._auto_running.set()\n            self._auto_thread.join()\n")
+M("C19", "no_reset_indicator", "ui/components/progress_indicator.py",
+  "        self.finish(end_message, reset_indicator=True)", "        self.finish(end_message)")
+M("C19", "throttle_halved", "ui/components/progress_indicator.py",
+  "        self._update_time = current_time + self._interval\n        self._current += 1", "        self._update_time = current_time + self._interval // 2\n        self._current += 1")
+M("C19", "plain_advance_redraws", "ui/components/progress_indicator.py",
+  "        if not self._io.supports_ansi():\n            return\n\n        current_time", "        current_time")
+M("C19", "exception_swallowed", "ui/components/progress_indicator.py",
+  "            self._auto_thread.join()\n\n            raise\n", "            self._auto_thread.join()\n\n            return\n")
+
 
 def run_one(m, runs):
     prop, name, path, old, new, expect = m
